@@ -519,6 +519,18 @@ func TestPipelines(t *testing.T) {
 				labels["instruction-spelled-like-the-previous-operand"] = true
 			}
 			todo := []Action{a}
+			if rapid.IntRange(0, 14).Draw(t, "rewrite") == 0 {
+				// a register is given a colour, given another one through the incrementing form, and
+				// given the first colour again exactly as before; then a path is filled from it
+				cs := model.ModelCSel()
+				adj := gen.Adj(t, "rw.adj")
+				r := (cs - adj) & 63
+				x, y := ops.RGBAv(gen.RGBAOfClass(t, "rw.x", gen.RGBAOpaque)), ops.RGBAv(gen.RGBAOfClass(t, "rw.y", gen.RGBAOpaque))
+				todo = []Action{{K: "creg", Adj: adj, C: &x}, {K: "csel", Sel: r}, {K: "creg", Incr: true, C: &y}, {K: "csel", Sel: cs}, {K: "creg", Adj: adj, C: &x},
+					{K: "csel", Sel: r}, {K: "path", F: []ops.F32{-20, -20, 20, -20, 0, 40}}}
+				i += len(todo) - 1
+				labels["same-colour-to-the-same-register-again-after-an-incrementing-write-to-it"] = true
+			}
 			if i+30 < n && rapid.IntRange(0, 29).Draw(t, "walk") == 0 {
 				// incrementing colour writes walk CSEL past 63 and on into the registers the gradient
 				// helpers use for their stops (10...), then a helper is called: it must refuse
